@@ -1,9 +1,11 @@
 package mon
 
 import (
-	"strings"
 	"bytes"
 	"fmt"
+	"strings"
+	"sync"
+	"sync/atomic"
 
 	"github.com/miekg/dns"
 
@@ -345,6 +347,83 @@ func c04Large(w *core.W, j int) {
 	c04Check(w, m, "large")
 }
 
+// c04SharedRecords: two messages that hold the same record values (the way a server answers two clients
+// from one cache) are packed with compression from 8 goroutines at once. What a record's RDATA is
+// compressed against differs between the two messages - so do its RDLENGTH and the pointers inside -
+// and each message must come out as it does when it is packed alone.
+func c04SharedRecords(w *core.W, j int) {
+	g := model.NewGen(w.Rng(j))
+	zone := g.NameOfWireLen(20 + g.R.IntN(80)).Pres()
+	targetZone := g.NameOfWireLen(20 + g.R.IntN(120)).Pres()
+	if _, ok := dns.IsDomainName(zone); !ok {
+		return
+	}
+	if _, ok := dns.IsDomainName(targetZone); !ok {
+		return
+	}
+	n := 4 + g.R.IntN(40)
+	var shared []dns.RR
+	for i := 0; i < n; i++ {
+		h := dns.RR_Header{Name: zone, Class: 1, Ttl: 60}
+		switch i % 4 {
+		case 0:
+			h.Rrtype = dns.TypeNS
+			shared = append(shared, &dns.NS{Hdr: h, Ns: fmt.Sprintf("ns%d.%s", i, targetZone)})
+		case 1:
+			h.Rrtype = dns.TypeMX
+			shared = append(shared, &dns.MX{Hdr: h, Preference: uint16(i), Mx: fmt.Sprintf("mx%d.%s", i, targetZone)})
+		case 2:
+			h.Rrtype = dns.TypeSOA
+			shared = append(shared, &dns.SOA{Hdr: h, Ns: "ns." + targetZone, Mbox: "hostmaster." + zone, Serial: uint32(i)})
+		case 3:
+			h.Rrtype = dns.TypeCNAME
+			h.Name = fmt.Sprintf("c%d.%s", i, zone)
+			shared = append(shared, &dns.CNAME{Hdr: h, Target: targetZone})
+		}
+	}
+	// message a offers the target zone as a compression target from its question on, message b does not
+	a, b := new(dns.Msg), new(dns.Msg)
+	a.SetQuestion(targetZone, dns.TypeNS)
+	b.SetQuestion("unrelated.invalid.", dns.TypeNS)
+	a.Compress, b.Compress = true, true
+	a.Answer, b.Answer = shared, shared
+	a.Ns = shared[:len(shared)/2]
+	b.Extra = shared[len(shared)/2:]
+	wa, ea := a.Pack()
+	wb, eb := b.Pack()
+	if ea != nil || eb != nil {
+		return
+	}
+	w.Eval(1)
+	w.Nontrivial(wa, wb)
+	var bad atomic.Int32
+	var first atomic.Value
+	var wg sync.WaitGroup
+	for t := 0; t < 8; t++ {
+		wg.Add(1)
+		go func(t int) {
+			defer wg.Done()
+			for k := 0; k < 60; k++ {
+				m, want := a, wa
+				if (t+k)%2 == 1 {
+					m, want = b, wb
+				}
+				got, err := m.Pack()
+				if err != nil || !bytes.Equal(got, want) {
+					bad.Add(1)
+					first.CompareAndSwap(nil, fmt.Sprintf("err=%v, %s", err, diffWin(got, want)))
+				}
+			}
+		}(t)
+	}
+	wg.Wait()
+	w.Count("shared_record_packs", 480)
+	if nb := bad.Load(); nb > 0 {
+		w.Violation("C04/concurrent-use-differs/shared-records", fmt.Sprintf("%d of 480 compressed packings of two messages that share %d record values, made from 8 goroutines at once, differ from the packing made alone (%v)", nb, n, first.Load()),
+			map[string]any{"zone": zone, "target_zone": targetZone, "records": n})
+	}
+}
+
 func init() {
 	plan, run := sections(
 		section{"small", tiered(3000, 60000), c04Small},
@@ -352,12 +431,13 @@ func init() {
 		section{"special-use-names", tiered(600, 12000), c04SpecialUse},
 		section{"dense", tiered(120, 3000), c04Dense},
 		concurrentSection("C04"),
+		section{"shared-records", tiered(40, 800), c04SharedRecords},
 	)
 	core.Register(&core.Monitor{
 		ID: "C04", Level: "exploration", Plan: plan, Run: run,
 		Rule: "messages drawn from small pools of suffix-sharing / case-variant / escaped names, 0..4 questions, every name-bearing type in every section, plus 300..1200-record messages crossing offset 16384; " +
 			"oracle = strict model decoder (expands names, logs every pointer with position/target/field) compared byte-exact with the uncompressed packing; model-compressed input with pointers in every type's RDATA; the same message packed again after a failing and after a succeeding Pack of a related message with shifted offsets must give identical octets; " +
-			"the same operations called from 8 goroutines at once give the results they give alone; non-trivial = distinct message whose compressed form is shorter",
+			"the same operations called from 8 goroutines at once give the results they give alone; two messages sharing their record values (different compression contexts) packed from 8 goroutines at once; non-trivial = distinct message whose compressed form is shorter",
 		Assumptions: []string{"RFC 3597 s.4 set = NS MD MF CNAME SOA MB MG MR PTR MINFO MX"},
 		MinObserved: []string{"messages", "pointers", "messages_over_16384", "input_pointers_in_other_rdata", "history_checks", "special_use_messages"},
 	})
